@@ -136,38 +136,106 @@ def snapshot(root):
 
 # --------------------------------------------------------------------------------------------- operations
 
+def ops_for_kind(k, lang):
+    """the warning-free option vocabulary of a node kind: [(method, args-source)]"""
+    w = {"en": {"A": "big", "Adv": "now", "N": "dog", "D": "the"}, "fr": {"A": "grand", "Adv": "bien", "N": "chien", "D": "le"}}[lang]
+    L = ',"%s"' % lang
+    opts = []
+    if k in ("N", "NP"):
+        opts += [("n", '"p"'), ("n", '"s"')]
+    if k in ("N", "A", "D", "Pro", "NP") and lang == "fr":
+        opts += [("g", '"f"'), ("g", '"m"')]
+    if k in ("V", "VP", "S", "root"):
+        opts += [("t", '"ps"'), ("t", '"f"'), ("t", '"p"')]
+    if k in ("Pro", "D", "V"):
+        opts += [("pe", "2"), ("pe", "1"), ("n", '"p"')]
+    if k == "A":
+        opts += [("f", '"co"')]
+    if k in ("S", "SP", "VP", "root"):
+        opts += [("typ", '{"neg":True}'), ("typ", '{"pas":True}'), ("typ", '{"int":"yon"}'), ("typ", '{"perf":True,"neg":False}'),
+                 ("typ", '{"exc":True}')]
+    if k in ("NP",):
+        opts += [("add", 'A("%s"%s)' % (w["A"], L)), ("add", 'A("%s"%s),0' % (w["A"], L))]
+    if k in ("S", "VP"):
+        opts += [("add", 'Adv("%s"%s)' % (w["Adv"], L)), ("add", 'Adv("%s"%s),1' % (w["Adv"], L))]
+    if k in ("root", "subj", "comp"):
+        opts += [("add", 'mod(Adv("%s"%s))' % (w["Adv"], L))]
+    if k == "NO":
+        opts += [("dOpt", '{"nat":False}'), ("dOpt", '{"nat":True}'), ("nat", "False"), ("nat", "True"), ("dOpt", '{"ord":True}'),
+                 ("dOpt", '{"mprecision":3}'), ("dOpt", '{"raw":True}'), ("dOpt", '{"rom":True}')]
+    if k == "DT":
+        opts += [("dOpt", '{"year":False}'), ("dOpt", '{"nat":False}'), ("nat", "False"), ("dOpt", '{"det":False}'),
+                 ("dOpt", '{"hour":False,"minute":False,"second":False}'), ("dOpt", '{"rtime":"2024-03-01T00:00:00"}')]
+    opts += [("a", '","'), ("b", '"("'), ("tag", '"b"'), ("tag", '"a",{"href":"u"}'), ("en", '"["'), ("cap", "False"), ("lier", "True")]
+    return opts
+
+
 def candidate_ops(rng, root, lang):
     """one random warning-free operation applicable to a random node: (path, method, args-source)"""
     nodes = list(walk(root))
-    for _ in range(20):
-        path, n = rng.choice(nodes)
-        k = n.constType
-        w = {"en": {"A": "big", "Adv": "now", "N": "dog", "D": "the"}, "fr": {"A": "grand", "Adv": "bien", "N": "chien", "D": "le"}}[lang]
-        L = ',"%s"' % lang
-        opts = []
-        if k in ("N", "NP"):
-            opts += [("n", '"p"'), ("n", '"s"')]
-        if k in ("N", "A", "D", "Pro", "NP") and lang == "fr":
-            opts += [("g", '"f"'), ("g", '"m"')]
-        if k in ("V", "VP", "S", "root"):
-            opts += [("t", '"ps"'), ("t", '"f"'), ("t", '"p"')]
-        if k in ("Pro", "D", "V"):
-            opts += [("pe", "2"), ("pe", "1"), ("n", '"p"')]
-        if k == "A":
-            opts += [("f", '"co"')]
-        if k in ("S", "SP", "VP", "root"):
-            opts += [("typ", '{"neg":True}'), ("typ", '{"pas":True}'), ("typ", '{"int":"yon"}'), ("typ", '{"perf":True,"neg":False}'),
-                     ("typ", '{"exc":True}')]
-        if k in ("NP",):
-            opts += [("add", 'A("%s"%s)' % (w["A"], L)), ("add", 'A("%s"%s),0' % (w["A"], L))]
-        if k in ("S", "VP"):
-            opts += [("add", 'Adv("%s"%s)' % (w["Adv"], L)), ("add", 'Adv("%s"%s),1' % (w["Adv"], L))]
-        if k in ("root", "subj", "comp"):
-            opts += [("add", 'mod(Adv("%s"%s))' % (w["Adv"], L))]
-        opts += [("a", '","'), ("b", '"("'), ("tag", '"b"'), ("tag", '"a",{"href":"u"}'), ("en", '"["'), ("cap", "False"), ("lier", "True")]
-        m, a = rng.choice(opts)
-        return [list(path), m, a]
-    return [[], "a", '"!"']
+    path, n = rng.choice(nodes)
+    m, a = rng.choice(ops_for_kind(n.constType, lang))
+    return [list(path), m, a]
+
+
+# expressions holding every kind of terminal whose constructor sets options itself (numbers written in letters or digits,
+# ordinals, dates): separately built copies must not share the option records the constructor installs
+TWIN_ENTRIES = [
+    ("fr", 'S(NP(NO("trois"),N("chien")),VP(V("courir")))'), ("fr", 'NP(NO("quatre"),N("oiseau"))'), ("fr", 'NP(D("le"),NO("deuxième"),N("essai"))'),
+    ("fr", 'NP(NO(3),N("chien"))'), ("fr", 'NP(NO(1234.5),N("euro"))'), ("fr", 'NP(D("le"),NO("2"),N("chat"))'),
+    ("en", 'S(NP(NO("three"),N("dog")),VP(V("run")))'), ("en", 'NP(D("the"),NO("third"),N("attempt"))'), ("en", 'NP(NO(2),N("cat"))'),
+    ("en", 'NP(NO("twenty-one"),N("day"))'), ("en", 'NP(NO(1234.5),N("dollar"))'),
+    ("en", 'S(NP(D("the"),N("meeting")),VP(V("be"),DT("2024-02-29T13:05:09")))'), ("fr", 'S(NP(D("le"),N("réunion")),VP(V("être"),DT("2024-02-29T13:05:09")))'),
+    ("en", 'root(V("run"),subj(N("dog"),det(NO("three"))))'), ("fr", 'root(V("courir"),subj(N("chien"),det(NO("trois"))))'),
+    ("en", 'S(Pro("I"),VP(V("see"),NP(D("a"),A("big"),N("cat"))))'), ("fr", 'S(Pro("je"),VP(V("voir"),NP(D("un"),A("grand"),N("chat"))))'),
+    ("en", 'S(CP(C("and"),NP(D("the"),N("cat")),NP(D("the"),N("dog"))),VP(V("sleep")))'), ("fr", 'S(CP(C("et"),NP(D("le"),N("chat")),NP(D("le"),N("chien"))),VP(V("dormir")))'),
+    ("en", 'Q("hello")'), ("fr", 'Adv("bien")'), ("en", 'P("of")'), ("fr", 'C("mais")'),
+]
+
+
+def run_twin_scenarios():
+    """exhaustive over TWIN_ENTRIES x every node x every option of the node's vocabulary: build two separate copies and a
+    third one LATER, apply the option to the first: the second and the third keep the snapshot and the text of a copy built
+    alone in a fresh state"""
+    fails = []
+    n = 0
+    for lang, src in TWIN_ENTRIES:
+        with Quiet():
+            try:
+                ref = build(src, lang)
+                ref_snap0 = snapshot(ref)
+                ref_text = ref.clone().realize()
+                paths = [(list(p), nd.constType) for p, nd in walk(ref)]
+            except Exception:  # noqa
+                continue
+        prev = None
+        for path, k in paths:
+            for m, a in ops_for_kind(k, lang):
+                with Quiet() as qz:
+                    try:
+                        x, y = build(src, lang), build(src, lang)
+                        if snapshot(y) != ref_snap0:
+                            fails.append(("twin:construction-depends-on-earlier-expression:" + k, {"src": src, "lang": lang, "earlier": prev},
+                                          {"field": snap_diff(snapshot(y), ref_snap0), "history": "the same source was built before and `earlier` applied to that copy"}))
+                            continue
+                        apply_op(x, [path, m, a])
+                        prev = {"path": path, "op": [m, a]}
+                        x.realize()
+                        n += 1
+                        after = snapshot(y)
+                        z = build(src, lang)                       # built after the option was set on x
+                        zs = snapshot(z)
+                        ty, tz = y.realize(), z.realize()
+                    except Exception:  # noqa
+                        continue
+                inp = {"src": src, "lang": lang, "path": path, "op": [m, a]}
+                if after != ref_snap0:
+                    fails.append(("twin:option-on-one-expression-changes-a-separate-one:%s.%s" % (k, m), inp, {"field": snap_diff(after, ref_snap0)}))
+                elif zs != ref_snap0:
+                    fails.append(("twin:option-on-one-expression-changes-later-expressions:%s.%s" % (k, m), inp, {"field": snap_diff(zs, ref_snap0)}))
+                elif ty != ref_text or tz != ref_text:
+                    fails.append(("twin:text-of-separate-expression-changed:%s.%s" % (k, m), inp, {"alone": ref_text, "second": ty, "later": tz}))
+    return n, fails
 
 
 def apply_op(root, op):
@@ -479,6 +547,11 @@ def run(ctx, deep=False):
     for name, detail in ofails:
         ctx.count({"output-scenario": name, "src": detail["src"]}, name, trivial=False)
         ctx.fail(name, detail, {})
+    ntw, tfails = run_twin_scenarios()
+    ctx.notes["twin_scenarios"] = ntw
+    for name, inp, detail in tfails:
+        ctx.count({"twin-scenario": name, "src": inp["src"], "op": inp.get("op")}, name, trivial=False)
+        ctx.fail(name, inp, detail)
     for name, detail in run_list_scenarios():
         ctx.count({"list-scenario": name}, detail, trivial=False)
         ctx.fail(name, {"scenario": name}, detail)
